@@ -181,6 +181,49 @@ func runLock(cfg *config) {
 	sess.Close()
 	sess = &engine.Session{}
 	must("USE lk")
+	// an open that stalls between starting the store and reading its header (a busy machine): a flush
+	// tick in that gap must not meet a header that was never read - it would write it to the file
+	{
+		sess.Close()
+		var stalled int32
+		storage.VerifSetHook(func(ev string, arg uint64) {
+			if ev == "store.open" && atomic.CompareAndSwapInt32(&stalled, 0, 1) {
+				time.Sleep(260 * time.Millisecond)
+			}
+		})
+		cfg.tr.Op("slow-open")
+		res := "ok"
+		sess = &engine.Session{}
+		wdog.Run(func() {
+			if pm := hx.Catch(func() {
+				if err := sess.ExecQuery("USE lk"); err != nil {
+					res = "damaged use: " + err.Error()
+					return
+				}
+				if err := sess.ExecQuery("INSERT INTO t VALUES (777777, 'after a slow open')"); err != nil {
+					res = "damaged insert: " + err.Error()
+					return
+				}
+				if err := sess.ExecQuery("DELETE FROM t WHERE a = 777777"); err != nil {
+					res = "damaged delete: " + err.Error()
+				}
+			}); pm != "" {
+				res = "damaged panic: " + pm
+			}
+		})
+		storage.VerifSetHook(nil)
+		if len(res) > 120 {
+			res = res[:120]
+		}
+		cfg.tr.Out("%s", strings.ReplaceAll(res, "\n", " "))
+		cfg.st.Inc("slow-open")
+		if res != "ok" {
+			// the database is gone: nothing further can be said about it
+			cfg.tr.Op("races")
+			cfg.tr.Out("races 0")
+			return
+		}
+	}
 	rounds := 2 * cfg.scale
 	for i := 0; i < rounds; i++ {
 		park("insert", fmt.Sprintf("INSERT INTO t VALUES (%d, 'x'), (%d, 'y'), (%d, 'z')", 3*i, 3*i+1, 3*i+2))
